@@ -27,9 +27,9 @@ import (
 // Declared constants of A that no clause lists are informational (they take the default).
 func init() {
 	register(&Rule{
-		Name:  "ENUM-INVERSE",
-		IR:    "ast",
-		Props: []string{"C31", "C19", "C27"},
+		Name:    "ENUM-INVERSE",
+		IR:      "ast",
+		Props:   []string{"C31", "C19", "C27"},
 		Floor:   2,
 		FloorBy: map[string]int{"C31": 1, "C19": 1, "C27": 1},
 		Narrow: func(o *Obligation) {
